@@ -66,6 +66,7 @@ func Main(prop string, scenarios func(tier string) []*vsched.Scenario, budget Bu
 		return
 	}
 	r := lib.NewReport(prop)
+	defer r.Guard()
 	bud := budget.Quick
 	if tier == "thorough" {
 		bud = budget.Thorough
